@@ -20,6 +20,8 @@ def run(ctx):
     closure = R.state_closure(ctx.P)
     R.r1_picklable_closure(ctx, closure)
     R.r2_value_equality(ctx, closure)
+    R.r9_back_references_left_out_by_name(ctx)
+    ctx.floor("R9", 1)
     R.r3_interruption_points(ctx)
     R.r5_no_global_state(ctx)
     R.r5b_no_class_level_state(ctx, closure)
